@@ -45,8 +45,9 @@ ASSUMPTIONS = [
     'Spec.WellFormed (length fields consistent) holds for every message _marshal constructs: C03 '
     'marshal_wellformed gives the byte layout, Proofs/Proto/Frames.lean wellFormed_of_layout turns that layout '
     'into WellFormed; the two are not composed in one Lean theorem (C04 does not import C03)',
-    'hand-off cases are judged only when the implementation did authenticate (the handshakes use well-formed '
-    'lines and 32-hex-digit GUIDs; authentication itself is C06 / C07)',
+    'a hand-off case is not judged when the AUTHENTICATOR refused the handshake although it was handed its lines '
+    '(authentication is C06 / C07); when lines are missing or altered the case is judged (the handshakes use '
+    'well-formed lines and 32-hex-digit GUIDs)',
 ]
 RULE = ('one case = one (stream, partition) pair; distinct = distinct canonical JSON of (mode, reads); '
         'non-trivial = at least one complete message or auth line is delivered')
@@ -483,11 +484,28 @@ def model_line(sc, script):
 
 
 # --------------------------------------------------------------------------------------- judging
+def refused_by_authenticator(sc, authenticated, effects, script):
+    """Not authenticated although the framing did its part: the authenticator was handed the handshake lines
+    (all of them, or a prefix that ends with a line it refused) and did not report success.  Then authentication
+    - C06 / C07 - decided, and C04 / C20 have nothing to judge.  If lines are missing or different, the framing
+    is at fault and the case IS judged."""
+    if authenticated:
+        return False
+    hs = bytes.fromhex(sc.get('handshake', ''))
+    if sc['mode'].endswith('server') and hs[:1] == b'\0':
+        hs = hs[1:]
+    want = [l.hex() or '-' for l in hs.split(b'\r\n')[:-1]]
+    got = [e[1:] for e in effects if e.startswith('L')]
+    if got == want:
+        return True
+    return 'f' in script and got == want[:len(got)]
+
+
 def classify(sc, obs):
     """Key of a violation of the oracle on scenario sc (None = property holds)."""
     sent = [bytes.fromhex(h) for h in sc['sent']]
-    if sc['mode'] != 'binary' and not obs['authenticated']:
-        return None, None            # the handshake did not authenticate: nothing for C04 to judge
+    if sc['mode'] != 'binary' and refused_by_authenticator(sc, obs['authenticated'], obs['effects'], obs['script']):
+        return None, None            # the AUTHENTICATOR did not accept the handshake: nothing for C04 to judge
     if 'bad_index' in sc:
         # judged up to and including the message that does not parse (the exception escapes there)
         k = sc['bad_index'] + 1
@@ -578,7 +596,8 @@ class Batch:
             ctx.stat('%s:delivered=%s' % (stream, bucket(len(o['raws']))))
             if o['crashed']:
                 ctx.stat('%s:exception=%s' % (stream, o['crashed']))
-            if not o['authenticated'] and sc['mode'] != 'binary' and oracle:
+            if oracle and sc['mode'] != 'binary' and refused_by_authenticator(sc, o['authenticated'], o['effects'],
+                                                                                o['script']):
                 ctx.stat('%s:not-authenticated(S3 only)' % stream)
             if out is not None:
                 il = impl_line(o)
